@@ -53,6 +53,24 @@ def runner_c09(tier, seed, workdir):
                             "message ids are unique (nanoid)"]}
 
 
+def runner_c14(tier, seed, workdir):
+    import c14
+    n = 240 if tier == 'quick' else 4000
+    res = c14.run(seed, n, workdir)
+    violations = []
+    for d in res['disagreements'][:20]:
+        violations.append({'class': d['what'].split(' ')[0], 'detail': f"case {d['case']['id']}: {d['what']}: expected {short(d['expected'])}, the engine gives {short(d['observed'])}",
+                           'case': {'kind': 'script', 'case': d['case'], 'what': d['what'], 'expected': d['expected'], 'observed': d['observed']}})
+    st = res['stats']
+    cov = {'evaluations': st['cases'], 'distinct_nontrivial': st['values_beyond_i32'] + st['templates_multi'],
+           'rule': "JSON values of depth <= 3 with boundary integers (+-2^31, +-2^31+-1, 2^32, 3e9, +-2^53, 2^53-1), floats, unicode / quoted / multi-line strings, passed as a start variable, returned and $set by an acts.transform.code act and stringified inside it; parameter strings with 0..4 templates {{ name }} between plain segments (adjacent, repeated, with stray braces and newlines) on a msg act; non-trivial = integer beyond 32 bits in the value or more than one template",
+           'traces_validated_against_impl': st['traces_validated_against_impl'], 'input_distribution': st, 'samples': [res['cases'][0]['vars'], res['cases'][0]['t']]}
+    return {'cov': cov, 'violations': violations,
+            'assumptions': ["QuickJS evaluates `{{ name }}` to the value of the global `name` (eval is a parameter of the model)",
+                            "IEEE binary64: integers of magnitude <= 2^53 are exact (premise of the theorems); serde_json number printing",
+                            "object key order is not observable (serde_json maps are sorted)"]}
+
+
 def classify_c10(d):
     op = d['case']['ops'][d['op']]
     return f"{d['backend']}:{op['op']}"
@@ -94,7 +112,7 @@ def engine_runner(prop):
     return run
 
 
-RUNNERS = {'C10': runner_c10, 'C09': runner_c09}
+RUNNERS = {'C10': runner_c10, 'C09': runner_c09, 'C14': runner_c14}
 for _p in ('C01', 'C02', 'C03', 'C05', 'C08', 'C19'):
     RUNNERS[_p] = engine_runner(_p)
 
@@ -180,6 +198,10 @@ def replay(prop, path):
             print(f"op#{d['op']} model={short(d['model'])} impl={short(d['impl'])}")
         print("REPRODUCED" if r['disagreements'] else "NOT-REPRODUCED")
         return 1 if r['disagreements'] else 0
+    if case.get('kind') == 'script':
+        print(json.dumps(case, indent=1)[:2000])
+        print("re-run with ./check C14 quick (the case is part of the seed's corpus); expected vs observed above")
+        return 1
     if case.get('kind') == 'retry':
         import c09
         common.ocaml_build(); common.harness_build()
